@@ -295,12 +295,16 @@ def run(ctx):
   for name in ('adam', 'adagrad', 'yogi', 'rmsprop'):
     mk = lambda nm=name: getattr(fedjax.optimizers, nm)(0.125)
     for ci, c in enumerate(sub[:3]):
+      # sign-normalising optimizers turn a gradient coordinate that is zero up to rounding into a step of either sign, so
+      # "equal up to floating-point rounding" is only meaningful away from stationary coordinates: start far from the data
+      c = dict(c, inst=dict(c['inst'], init=[island.R(10 if lf % 2 == 0 else -10) for lf in range(len(c['inst']['init']))]))
       for oi, (order, backend) in enumerate([('listed', 'jit'), ('reversed', 'debug'), (2, 'jit')]):
         rec = run_real(fedjax, c, order, backend, copt=mk(), sopt=mk())
         if rec['error']:
           ev.append({'e': 'Fact', 'name': 'OptimizerRunCompletes', 'about': f'{name} case {ci}: {rec["error"]}', 'holds': False})
         else:
-          ev.append({'e': 'Call', 'key': f'{name}: params after {c["inst"]["rounds"]} rounds (case {ci})', 'out': tol(np.array(rec['rounds'][-1], np.float32))})
+          ev.append({'e': 'Call', 'key': f'{name}: params after {c["inst"]["rounds"]} rounds (case {ci})', 'out': tol(np.array(rec['rounds'][-1], np.float32)),
+                     'val': [float(x) for x in rec['rounds'][-1]], 'how': f'{order}/{backend}'})
           ev.append({'e': 'Fact', 'name': 'Finite', 'about': f'{name} case {ci}', 'holds': bool(np.all(np.isfinite(rec['rounds'][-1])))})
   key_leg(ctx, fedjax, cases, ev)
   vs, _ = vtraces.validate_batch(ctx, 'PureHistory', [{'events': ev}], {}, 'PH')
